@@ -426,9 +426,14 @@ package yqlib
 // ---------------------------------------------------------------------------------------------
 // operator_traverse_path.go
 
+//@ func (*CandidateNode).CreateChild
+//@   props C02 C16 C11
+//@   ensures result != nil && fresh(result) && result.Parent == n && result.Key == nil && len(result.Content) == 0
+
 //@ func traverseMap
 //@   props C08 C02 C07
 //@   flags docframe-only
+//@   requires matchingNode != nil && keyNode != nil
 //@   readonly-if context.DontAutoCreate || prefs.DontAutoCreate || splat
 
 // ---------------------------------------------------------------------------------------------
@@ -475,7 +480,7 @@ package yqlib
 
 //@ func (*CandidateNode).VisitValues
 //@   props C08 C15 C11
-//@   requires n != nil
+//@   requires n != nil && visitor != nil
 //@   assume kidsOK(n)
 
 //@ func (*CandidateNode).CanVisitValues
